@@ -199,6 +199,8 @@ def parse_config_file(args_dict):
     if cfg.has_option('simulation', key):
         _ = all_sim.pop(key)
         simulation[key] = cfg.get('simulation', key)
+        if simulation[key] == 'None':
+            simulation[key] = None
 
     key = 'receiver_interpolation'
     if cfg.has_option('simulation', key):
